@@ -122,6 +122,12 @@ FOCUS_TEMPLATES = [
     # named references to functions of arity one that depend on the focus bind it where they are created
     ("let $d := parse-xml('<r><i xml:lang=\"en\"/><i xml:lang=\"it\"/><i/></r>') return (let $f := $d/r/i[1]/lang#1 "
      "return for $k in %s return $d/r/i[($k mod 3) + 1]/$f('en'))", lambda q: [['bool', True] for _ in q], 'focus-dependent-function-reference'),
+    # a partial application that has been called, then partial applications derived from it, then the original again
+    ("let $p := concat(?, '-', ?, '+', ?) return ($p(1, 2, 3), $p(count(%s), ?, ?)(8, 9), (7 => $p(?, 6))(5), $p(?, ?, 0)(4, 4), $p(1, 2, 3))",
+     lambda q: [['str', '1-2+3'], ['str', '%d-8+9' % len(q)], ['str', '7-5+6'], ['str', '4-4+0'], ['str', '1-2+3']],
+     'partial-derived-after-a-call'),
+    ("let $p := function($a, $b, $c) { $a * 100 + $b * 10 + $c }(?, ?, ?) return ($p(1, 2, 3), $p(count(%s), ?, ?)(8, 9), $p(?, 5, ?)(4, 6), $p(3, 2, 1))",
+     lambda q: _ints([123, len(q) * 100 + 89, 456, 321]), 'partial-derived-after-a-call'),
     # for-each-pair with two lazy operands that depend on the focus (predicates with position()/last(), paths)
     ("for-each-pair(%s[position() ge 1][. ge last() - last()], %s[. ge 0][position() le last()], function($a, $b) { $a * 10 + $b })",
      lambda q: _ints([x * 11 for x in q]), 'for-each-pair-lazy-operands'),
